@@ -577,7 +577,7 @@ fn cases(tier: Tier) -> Vec<Case> {
     }));
     // ... and (every fourth case; thorough: every second) once more under a configuration that must
     // not matter: a handler timeout nothing comes near, and the recreate strategy
-    let nv = crate::progscene::Variant { generous_timeout: true, recreate: true, builder_order: 0 };
+    let nv = crate::progscene::Variant { generous_timeout: true, recreate: true, builder_order: 0, owner_dropped: false };
     let n = crate::progscene::with_variant(nv, || plain_cases(tier));
     let step = if tier == Tier::Thorough { 2 } else { 4 };
     v.extend(n.into_iter().enumerate().filter(|(i, _)| i % step == 1).map(|(_, mut c)| {
